@@ -165,19 +165,23 @@ def load_known():
     return json.load(open(p))["findings"]
 
 
-def scenario_slice(trace_path, scn):
-    """Event lines of scenario `scn` (from its reset line to the next reset)."""
-    out, on = [], False
+def scenario_slice(trace_path, scn, bad_line=None):
+    """Event lines of scenario `scn`: from its reset line up to (and a little past) the rejected line."""
+    out, on, n = [], False, 0
     with open(trace_path) as f:
         for line in f:
+            n += 1
             if '"ev":"reset"' in line:
                 if on:
                     break
                 on = json.loads(line).get("scn") == scn
             if on:
-                out.append(line.rstrip("\n"))
-                if len(out) > 4000:
+                tag = ">>> " if n == bad_line else ""
+                out.append(tag + line.rstrip("\n")[:3000])
+                if bad_line and n > bad_line + 3:
                     break
+    if len(out) > 400:
+        out = out[:40] + ["..."] + out[-340:]
     return out
 
 
@@ -219,7 +223,7 @@ class Verdict:
         for b in res.get("bad", []):
             self.violations.append(dict(kind="trace", part=part, bad=b,
                                         descr=scenario_descr(run["descr"], b.get("scn")),
-                                        events=scenario_slice(run["trace"], b.get("scn"))))
+                                        events=scenario_slice(run["trace"], b.get("scn"), b.get("line"))))
         for d in res.get("devs", []):
             entry = None
             for k in self.known_all:
@@ -231,7 +235,7 @@ class Verdict:
                 self.violations.append(dict(kind="trace", part=part, bad=dict(d, why="deviation " + str(d.get("dev")) +
                                             " is not an open known finding"),
                                             descr=scenario_descr(run["descr"], d.get("scn")),
-                                            events=scenario_slice(run["trace"], d.get("scn"))))
+                                            events=scenario_slice(run["trace"], d.get("scn"), d.get("line"))))
             else:
                 key = entry["id"]
                 self.known[key] = (entry, self.known.get(key, (entry, 0))[1] + 1)
